@@ -14,7 +14,9 @@ import (
 	"os"
 	"strings"
 
+	"github.com/projectcalico/calico/felix/calc"
 	"github.com/projectcalico/calico/felix/ip"
+	"github.com/projectcalico/calico/libcalico-go/lib/backend/model"
 )
 
 type rng struct{ s uint64 }
@@ -172,6 +174,11 @@ func main() {
 	r := &rng{s: *seed}
 	enc := json.NewEncoder(os.Stdout)
 	for i := 0; i < *n; i++ {
+		if i%4 == 3 {
+			// every fourth case exercises felix/calc.IpTrie (iplpm.go)
+			_ = enc.Encode(iptCase(r))
+			continue
+		}
 		w := 32
 		fam := "v4"
 		if r.intn(5) < 2 {
@@ -366,8 +373,8 @@ func main() {
 				add("OpSlice", "OEntries "+c, "ToSlice -> "+h)
 			}
 		}
-		coq := fmt.Sprintf("{| c_w := %d; c_ops := %s; c_outs := %s |}", w, parenAll(ops), parenAll(outs))
-		tags := []string{"family:" + fam, fmt.Sprintf("maxstored:%d", min(maxStored/3*3, 12))}
+		coq := fmt.Sprintf("XTrie {| c_w := %d; c_ops := %s; c_outs := %s |}", w, parenAll(ops), parenAll(outs))
+		tags := []string{"stream:trie", "family:" + fam, fmt.Sprintf("maxstored:%d", min(maxStored/3*3, 12))}
 		if effDeletes > 0 {
 			tags = append(tags, "effective-delete")
 		}
@@ -390,4 +397,208 @@ func parenAll(xs []string) string {
 		}
 	}
 	return coqList(ys)
+}
+
+// ---------------------------------------------------------------------------------------
+// felix/calc.IpTrie stream
+
+func bytesN(b string) string {
+	xs := make([]string, len(b))
+	for i := range b {
+		xs[i] = fmt.Sprintf("%d", b[i])
+	}
+	if len(xs) == 0 {
+		return "[]"
+	}
+	return "[" + strings.Join(xs, "; ") + "]%N"
+}
+
+type iptKey struct {
+	id  int
+	key model.Key
+	ns  string
+	net bool
+}
+
+func (k iptKey) coq() string {
+	return fmt.Sprintf("(mkK %d %v %s %s)", k.id, k.net, bytesN(k.ns), bytesN(k.key.String()))
+}
+
+func vpCoq(p pfx, w int) string { return fmt.Sprintf("(%d%%nat, %s)", w, p.coq()) }
+
+func iptCase(r *rng) line {
+	names := []string{"zeta", "alpha", "ns1/web", "ns1/db", "ns2/web", "ns2/a", "mid", "ns3/x"}
+	var keys []iptKey
+	for i, nm := range names {
+		k := model.NetworkSetKey{Name: nm}
+		keys = append(keys, iptKey{id: i + 1, key: k, ns: k.GetNamespace(), net: true})
+	}
+	keys = append(keys, iptKey{id: 100, key: model.HostEndpointKey{Hostname: "h", EndpointID: "e"}, net: false})
+	nk := 3 + r.intn(len(keys)-2)
+	perm := make([]int, len(keys))
+	for i := range perm {
+		perm[i] = i
+	}
+	for x := len(perm) - 1; x > 0; x-- {
+		y := r.intn(x + 1)
+		perm[x], perm[y] = perm[y], perm[x]
+	}
+	var use []iptKey
+	for i := 0; i < nk; i++ {
+		use = append(use, keys[perm[i]])
+	}
+	type cp struct {
+		p pfx
+		w int
+	}
+	var pool []cp
+	npool := 3 + r.intn(6)
+	for len(pool) < npool {
+		w := 32
+		if r.intn(4) == 0 {
+			w = 128
+		}
+		if len(pool) > 0 && r.intn(3) == 0 {
+			b := pool[r.intn(len(pool))]
+			pool = append(pool, cp{derive(r, b.p, b.w), b.w})
+		} else {
+			pool = append(pool, cp{genPfx(r, w), w})
+		}
+	}
+	trie := calc.NewIpTrie()
+	type pair struct {
+		c cp
+		k iptKey
+	}
+	live := map[string]pair{}
+	var ops, outs, sample []string
+	nonMember, nsQueries, multi, nonMemberSingleton := 0, 0, 0, 0
+	add := func(op, out, human string) {
+		ops = append(ops, op)
+		outs = append(outs, out)
+		if len(sample) < 60 {
+			sample = append(sample, human)
+		}
+	}
+	nops := 10 + r.intn(25)
+	for j := 0; j < nops; j++ {
+		k := r.intn(100)
+		if j < 3 {
+			k = 0
+		}
+		switch {
+		case k < 35:
+			c := pool[r.intn(len(pool))]
+			ky := use[r.intn(len(use))]
+			trie.InsertKey(c.p.cidr(c.w), ky.key)
+			live[vpCoq(c.p, c.w)+ky.coq()] = pair{c, ky}
+			add(fmt.Sprintf("IInsert %s %s", vpCoq(c.p, c.w), ky.coq()), "IONone", fmt.Sprintf("InsertKey %s %s", c.p.human(c.w), ky.key))
+		case k < 50:
+			var c cp
+			var ky iptKey
+			if len(live) > 0 && r.intn(8) != 0 {
+				// the callers' discipline: delete a pair that was inserted
+				names := make([]string, 0, len(live))
+				for nm := range live {
+					names = append(names, nm)
+				}
+				sortStrings(names)
+				pr := live[names[r.intn(len(names))]]
+				c, ky = pr.c, pr.k
+			} else {
+				c = pool[r.intn(len(pool))]
+				ky = use[r.intn(len(use))]
+				if _, ok := live[vpCoq(c.p, c.w)+ky.coq()]; !ok {
+					nonMember++
+					// how many keys does this CIDR hold right now?
+					held := 0
+					for _, pr := range live {
+						if vpCoq(pr.c.p, pr.c.w) == vpCoq(c.p, c.w) {
+							held++
+						}
+					}
+					if held == 1 {
+						nonMemberSingleton++
+					}
+				}
+			}
+			trie.DeleteKey(c.p.cidr(c.w), ky.key)
+			delete(live, vpCoq(c.p, c.w)+ky.coq())
+			add(fmt.Sprintf("IDelete %s %s", vpCoq(c.p, c.w), ky.coq()), "IONone", fmt.Sprintf("DeleteKey %s %s", c.p.human(c.w), ky.key))
+		case k < 62:
+			c := pool[r.intn(len(pool))]
+			ks, ok := trie.GetKeys(c.p.cidr(c.w))
+			o := "IOKeys None"
+			if ok {
+				var ids []string
+				for _, x := range ks {
+					ids = append(ids, fmt.Sprintf("%d", keyID(keys, x)))
+				}
+				if len(ids) > 1 {
+					multi++
+				}
+				o = "IOKeys (Some [" + strings.Join(ids, "; ") + "]%N)"
+				if len(ids) == 0 {
+					o = "IOKeys (Some [])"
+				}
+			}
+			add("IGetKeys "+vpCoq(c.p, c.w), o, fmt.Sprintf("GetKeys %s -> %v %v", c.p.human(c.w), ks, ok))
+		default:
+			c := pool[r.intn(len(pool))]
+			h := derive(r, c.p, c.w)
+			h = pfx{a: h.a, l: c.w}
+			addr := h.cidr(c.w).Addr()
+			q := fmt.Sprintf("(%d%%nat, %s%%N)", c.w, h.a.String())
+			if k < 80 {
+				ky, ok := trie.GetLongestPrefixCidr(addr)
+				o := "IOKey None"
+				if ok {
+					o = fmt.Sprintf("IOKey (Some %d%%N)", keyID(keys, ky))
+				}
+				add("ILpm "+q, o, fmt.Sprintf("GetLongestPrefixCidr %s -> %v %v", addr, ky, ok))
+			} else {
+				pref := []string{"", "ns1", "ns2", "ns9"}[r.intn(4)]
+				nsQueries++
+				ky, ok := trie.GetLongestPrefixCidrWithNamespaceIsolation(addr, pref)
+				o := "IOKey None"
+				if ok {
+					o = fmt.Sprintf("IOKey (Some %d%%N)", keyID(keys, ky))
+				}
+				add(fmt.Sprintf("ILpmNs %s %s", q, bytesN(pref)), o, fmt.Sprintf("GetLongestPrefixCidrWithNamespaceIsolation %s %q -> %v %v", addr, pref, ky, ok))
+			}
+		}
+	}
+	tags := []string{"stream:iplpm"}
+	if nonMember > 0 {
+		tags = append(tags, "iplpm:non-member-delete")
+	}
+	if nonMemberSingleton > 0 {
+		tags = append(tags, "iplpm:non-member-delete-of-single-key-cidr")
+	}
+	if nsQueries > 0 {
+		tags = append(tags, "iplpm:namespace-query")
+	}
+	if multi > 0 {
+		tags = append(tags, "iplpm:multi-key-cidr")
+	}
+	coq := fmt.Sprintf("XIpt {| i_ops := %s; i_outs := %s |}", parenAll(ops), parenAll(outs))
+	return line{Coq: coq, NT: len(live) >= 2 || multi > 0, Key: "iplpm|" + strings.Join(ops, ";"),
+		Sample: map[string]any{"family": "iplpm", "trace": sample}, Tags: tags}
+}
+
+func keyID(keys []iptKey, k model.Key) int {
+	for _, x := range keys {
+		if x.key == k {
+			return x.id
+		}
+	}
+	return 0
+}
+
+func sortStrings(xs []string) {
+	for i := 1; i < len(xs); i++ {
+		for j := i; j > 0 && xs[j] < xs[j-1]; j-- {
+			xs[j], xs[j-1] = xs[j-1], xs[j]
+		}
+	}
 }
